@@ -28,6 +28,7 @@ def main(tier):
     quat.quaternion_blend(P, rep)      # orientations blended between two sections stay proper rotations
     rep.explanation = ("Entropy discipline over the whole library (banned sources, every draw on the world's engine, engine "
                        "written only at construction and by the file's seed entry), effect analysis (the RNG draw is the only "
-                       "state a query touches), index agreement of per-composition tables, size normalisation shape; thorough "
-                       "tier: symbolic proof that the generated matrices are proper rotations.")
+                       "state a query touches), index agreement of per-composition tables, size normalisation shape; computer-algebra "
+                       "proofs that Euler-angle bases, the 3x3 product, quat_cast / slerp / mat3_cast and their chain in the blended "
+                       "grains give proper rotations; thorough tier: symbolic proof that the generated random matrices are proper rotations.")
     return rep.finish()
